@@ -66,6 +66,7 @@ type WiScript struct {
 	HeadFlush bool          `json:"headflush,omitempty"` // flush the header block alone first and wait until the client has it
 	Cut       bool          `json:"cut,omitempty"`       // the backend dies after the last (flushed) segment: no terminating chunk
 	Delay     int           `json:"delay,omitempty"`     // the backend thinks for so many milliseconds before it answers
+	Early     bool          `json:"early,omitempty"`     // the backend answers from the request head alone, without reading the body (declared-length uploads)
 }
 type WiCase struct {
 	Cfg    WiCfg    `json:"cfg"`
@@ -103,7 +104,16 @@ func (b *wiBackend) ServeHTTP(w http.ResponseWriter, r *http.Request) {
 		w.WriteHeader(200)
 		return
 	}
-	body, _ := io.ReadAll(r.Body)
+	b.mu.Lock()
+	early := b.script.Early
+	b.mu.Unlock()
+	var body []byte
+	if early {
+		// the body is not looked at: what the view says about it is what was declared
+		body = detBytes(7, int(r.ContentLength))
+	} else {
+		body, _ = io.ReadAll(r.Body)
+	}
 	b.mu.Lock()
 	if d := b.script.Delay; d > 0 {
 		b.mu.Unlock()
@@ -894,9 +904,19 @@ func wiCorpus() []wiGroup {
 		mk(slow, "normal", WiReq{Method: "GET", Path: "/err-long", Headers: [][2]string{xf(32), {"X-API-Key", "k1"}}}, WiScript{Status: 503, Headers: [][2]string{{"Content-Type", "text/html"}}, Segs: []int{3000}}),
 		mk(slow, "normal", WiReq{Method: "PUT", Path: "/upload", Headers: [][2]string{xf(33), {"X-API-Key", "k1"}, {"Expect", "100-continue"}}, BodyLen: 1000, Framing: "cl"}, WiScript{Status: 201, Segs: []int{2}}),
 		mk(slow, "normal", WiReq{Method: "PUT", Path: "/upload-noauth", Headers: [][2]string{xf(34), {"Expect", "100-continue"}}, BodyLen: 1000, Framing: "cl"}, WiScript{Status: 201, Segs: []int{2}}),
+		mk(slow, "normal", WiReq{Method: "PUT", Path: "/upload-refused", Headers: [][2]string{xf(36), {"X-API-Key", "k1"}, {"Expect", "100-continue"}}, BodyLen: 1000, Framing: "cl"}, WiScript{Status: 401, Segs: []int{5}, CL: true, Early: true}),
 		mk(slow, "normal", WiReq{Method: "POST", Path: "/upload-chunked", Headers: [][2]string{xf(35), {"X-API-Key", "k1"}, {"Expect", "100-continue"}, {"X-Request-ID", "\u00a0"}}, BodyLen: 64, Framing: "chunked"}, WiScript{Status: 200, Segs: []int{2}}),
 	}}
-	return []wiGroup{g1, g2, g3}
+	// the tutorial request-id plugin behind an ID middleware that is configured on another header name: an X-Request-ID of the
+	// client is the client's, whatever the correlation header carries
+	corr := WiCfg{ReqID: true, ReqHdr: "X-Correlation-Id", Trace: true, Strategy: "round_robin", NBack: 1, Chain: []WiPlug{{Name: "request-id"}}}
+	g4 := wiGroup{cfg: corr, cases: []WiCase{
+		mk(corr, "normal", WiReq{Method: "GET", Path: "/own-id", Headers: [][2]string{xf(40), {"X-Request-ID", "client-chosen-1"}}}, ok),
+		mk(corr, "normal", WiReq{Method: "GET", Path: "/both-ids", Headers: [][2]string{xf(41), {"X-Request-ID", "client-chosen-2"}, {"X-Correlation-Id", "corr-7"}}}, ok),
+		mk(corr, "normal", WiReq{Method: "GET", Path: "/corr-only", Headers: [][2]string{xf(42), {"X-Correlation-Id", "corr-8"}}}, ok),
+		mk(corr, "normal", WiReq{Method: "GET", Path: "/no-id", Headers: [][2]string{xf(43)}}, ok),
+	}}
+	return []wiGroup{g1, g2, g3, g4}
 }
 
 func TestWire(t *testing.T) {
